@@ -19,6 +19,8 @@ SCRIPTS = {
     "pipeline": 'echo "S $NAME" >> "$J"\nsleep 30 | cat',
     # the shell exits at once, its background child keeps the output pipes open (the task is still running)
     "orphaning": 'echo "S $NAME" >> "$J"\nsleep 30 &\nexit 0',
+    # the command ignores SIGTERM (the shell does not): only a kill that cannot be refused ends the task
+    "termproof": 'echo "S $NAME" >> "$J"\n(trap "" TERM; exec sleep 30) &\nwait',
     "bigoutput": 'echo "S $NAME" >> "$J"\nhead -c 1048576 /dev/zero | tr "\\0" "x"\nhead -c 1048576 /dev/zero | tr "\\0" "y" >&2\nsleep 30',
 }
 
